@@ -375,11 +375,15 @@ impl<'a> IExec<'a> {
                             None => reasons.push("unknown-token"),
                             Some((t, native)) => {
                                 let a = *amount as i128;
-                                if !native && self.toks[t].locked - self.toks[t].released < a {
+                                // a service-deployed token that is also registered as a canonical token has two
+                                // managers; what the lock / unlock side can release is then whatever the service
+                                // holds (it may have been minted to the service under the other id)
+                                let available = if self.toks[t].kind == TokKind::Wasm { self.bal(t, H_ITS) } else { self.toks[t].locked - self.toks[t].released };
+                                if !native && available < a {
                                     ctx.count("probe.inbound_exceeds_custody");
                                     reasons.push("insufficient-custody");
                                 }
-                                if !native && self.toks[t].locked - self.toks[t].released == a && a > 0 {
+                                if !native && available == a && a > 0 {
                                     ctx.count("probe.custody_exactly_drained");
                                 }
                                 if to == Some(BLOCKED_USER) && self.toks[t].kind == TokKind::Probe && !native {
